@@ -6,8 +6,6 @@ sys.path.insert(0, HERE)
 from vlib.props import PROPS  # noqa
 
 NA = {
-    "C06": "a search over serialisations (Debug/CBOR/JSON) of values produced by whole ceremonies with real key generation; "
-           "neither producers nor formatters can be executed symbolically (DESIGN.md 5)",
 }
 PENDING = "solver-based check not built yet in this revision (planned in DESIGN.md section 4)"
 
